@@ -585,6 +585,7 @@ def build_pipeline_inspection(
 
     # Initialize tracking data structures
     inspection_nodes: List[NodeInspection] = []
+    defaulted: List[tuple[NodeInspection, set[str]]] = []
     key_origin: Dict[str, int] = {}  # Maps context keys to the node that created them
     deleted_keys: set[str] = set()  # Tracks keys that have been deleted from context
     all_required_params: set[str] = set()  # All parameters required from context
@@ -846,6 +847,18 @@ def build_pipeline_inspection(
             if view:
                 node_inspection.preprocessor_view = view
         inspection_nodes.append(node_inspection)
+        if default_params:
+            defaulted.append((node_inspection, deleted_at_entry))
+
+    # A defaulted parameter whose key the initial context has to supply anyway
+    # (another node requires it) takes its value from there: context wins over
+    # the default unless the key was deleted before the node runs.
+    for node_inspection, deleted_at_entry in defaulted:
+        for name in list(node_inspection.default_params):
+            if name in all_required_params and name not in deleted_at_entry:
+                del node_inspection.default_params[name]
+                node_inspection.config_params.pop(name, None)
+                node_inspection.context_params[name] = None
 
     # Calculate pipeline-level required context keys
     # These are parameters required by nodes but not created by any node
